@@ -381,6 +381,28 @@ Theorem between_acyclic ms rq sc starts ends ks ke :
           (fst (keep_only_between ms rq sc starts ends ks ke)).
 Proof. intros H1 H2. apply san_level_acyclic. apply between_incl; auto. Qed.
 
+(* that hypothesis cannot be dropped: starts that are not members are added as they are, with the
+   requirements they have among themselves *)
+Definition rq_outside : rmap := fun x => match x with 1 => [2] | 2 => [1] | _ => [] end.
+
+Theorem between_acyclic_nonmember_refuted :
+  exists ms rq sc starts ends ks ke,
+    NoDup ms /\ closed rq ms /\ acyclic rq ms /\
+    ~ acyclic (snd (keep_only_between ms rq sc starts ends ks ke))
+              (fst (keep_only_between ms rq sc starts ends ks ke)).
+Proof.
+  exists [0], rq_outside, (fun _ => []), [1; 2], [], true, true.
+  split; [repeat constructor; intros []|]. split.
+  { intros j r [<-|[]] []. }
+  split.
+  { exists (fun _ => 0). intros j r [<-|[]] []. }
+  intros [rk H]. pose proof (H 1 2) as A. pose proof (H 2 1) as B.
+  vm_compute in A, B.
+  assert (A' : S (rk 2) <= rk 1) by (apply A; auto).
+  assert (B' : S (rk 1) <= rk 2) by (apply B; auto).
+  lia.
+Qed.
+
 Lemma opt_add_nodup b l acc : NoDup acc -> NoDup (opt_add b l acc).
 Proof. intros H. unfold opt_add. destruct b; [apply add_all_nodup|]; exact H. Qed.
 
